@@ -332,6 +332,19 @@ pub struct ViewInfo {
     pub len: usize,
     /// `None` if the view exposes exactly the content the descriptor describes, else a description.
     pub mismatch: Option<String>,
+    /// `None` if the memory the view exposes lies inside the map's element slice, else a description.
+    pub outside_map: Option<String>,
+}
+
+fn outside<T>(map: &MemoryMap, data: &[T]) -> Option<String> {
+    let m: &[u64] = map.as_ref();
+    let (lo, hi) = (m.as_ptr() as usize, m.as_ptr() as usize + 8 * m.len());
+    let (a, b) = (data.as_ptr() as usize, data.as_ptr() as usize + std::mem::size_of_val(data));
+    if data.is_empty() || (a >= lo && b <= hi) {
+        None
+    } else {
+        Some(format!("the view exposes bytes {:#x}..{:#x}, the map covers {:#x}..{:#x}", a, b, lo, hi))
+    }
 }
 
 fn raw_view_mismatch(view: &RawVectorMapper, m: &Bits) -> Option<String> {
@@ -383,8 +396,8 @@ fn int_view_mismatch(view: &IntVectorMapper, width: usize, values: &[u64]) -> Op
     None
 }
 
-fn info<'a, T: MemoryMapped<'a>>(v: &T, mismatch: Option<String>) -> ViewInfo {
-    ViewInfo { offset: v.map_offset(), len: v.map_len(), mismatch }
+fn info<'a, T: MemoryMapped<'a>>(v: &T, mismatch: Option<String>, outside_map: Option<String>) -> ViewInfo {
+    ViewInfo { offset: v.map_offset(), len: v.map_len(), mismatch, outside_map }
 }
 
 fn opt_mismatch<T>(got: Option<&T>, want_some: bool) -> Option<String> {
@@ -399,26 +412,38 @@ fn opt_mismatch<T>(got: Option<&T>, want_some: bool) -> Option<String> {
 pub fn mapped_view(d: &Desc, map: &MemoryMap, offset: usize) -> Option<io::Result<ViewInfo>> {
     Some(match d {
         Desc::VecU64(v) => MappedSlice::<u64>::new(map, offset).map(|s| {
+            let out = outside(map, s.as_ref());
+            if out.is_some() { return info(&s, None, out); }
             let mm = if s.as_ref() != v.as_slice() || s.len() != v.len() || s.is_empty() != v.is_empty() || (0..v.len()).any(|i| s[i] != v[i]) { Some("MappedSlice<u64> content differs".to_string()) } else { None };
-            info(&s, mm)
+            info(&s, mm, None)
         }),
         Desc::VecUsize(v) => MappedSlice::<usize>::new(map, offset).map(|s| {
+            let out = outside(map, s.as_ref());
+            if out.is_some() { return info(&s, None, out); }
             let mm = if s.as_ref() != v.as_slice() { Some("MappedSlice<usize> content differs".to_string()) } else { None };
-            info(&s, mm)
+            info(&s, mm, None)
         }),
         Desc::VecPair(v) => MappedSlice::<(u64, u64)>::new(map, offset).map(|s| {
+            let out = outside(map, s.as_ref());
+            if out.is_some() { return info(&s, None, out); }
             let mm = if s.as_ref() != v.as_slice() || s.len() != v.len() { Some("MappedSlice<(u64,u64)> content differs".to_string()) } else { None };
-            info(&s, mm)
+            info(&s, mm, None)
         }),
         Desc::Bytes(v) => MappedBytes::new(map, offset).map(|s| {
+            let out = outside(map, s.as_ref());
+            if out.is_some() { return info(&s, None, out); }
             let mm = if s.as_ref() != v.as_slice() || s.len() != v.len() || s.is_empty() != v.is_empty() || (0..v.len()).any(|i| s[i] != v[i]) { Some("MappedBytes content differs".to_string()) } else { None };
-            info(&s, mm)
+            info(&s, mm, None)
         }),
         Desc::Str(v) => MappedStr::new(map, offset).map(|s| {
+            let out = outside(map, s.as_ref().as_bytes());
+            if out.is_some() { return info(&s, None, out); }
             let mm = if s.as_ref() != v.as_str() || s.len() != v.len() || s.is_empty() != v.is_empty() { Some("MappedStr content differs".to_string()) } else { None };
-            info(&s, mm)
+            info(&s, mm, None)
         }),
         Desc::OptVecU64(o) => MappedOption::<MappedSlice<u64>>::new(map, offset).map(|s| {
+            let out = s.as_ref().and_then(|v| outside(map, v.as_ref()));
+            if out.is_some() { return info(&s, None, out); }
             let mut mm = opt_mismatch(s.as_ref(), o.is_some());
             if let (Some(view), Some(v)) = (s.as_ref(), o.as_ref()) {
                 if view.as_ref() != v.as_slice() {
@@ -428,40 +453,57 @@ pub fn mapped_view(d: &Desc, map: &MemoryMap, offset: usize) -> Option<io::Resul
             if s.is_some() != o.is_some() || s.is_none() != o.is_none() {
                 mm = Some("MappedOption::is_some/is_none wrong".to_string());
             }
-            info(&s, mm)
+            info(&s, mm, None)
         }),
         Desc::OptBytes(o) => MappedOption::<MappedBytes>::new(map, offset).map(|s| {
+            let out = s.as_ref().and_then(|v| outside(map, v.as_ref()));
+            if out.is_some() { return info(&s, None, out); }
             let mut mm = opt_mismatch(s.as_ref(), o.is_some());
             if let (Some(view), Some(v)) = (s.as_ref(), o.as_ref()) {
                 if view.as_ref() != v.as_slice() {
                     mm = Some("MappedOption<MappedBytes> content differs".to_string());
                 }
             }
-            info(&s, mm)
+            info(&s, mm, None)
         }),
         Desc::OptStr(o) => MappedOption::<MappedStr>::new(map, offset).map(|s| {
+            let out = s.as_ref().and_then(|v| outside(map, v.as_ref().as_bytes()));
+            if out.is_some() { return info(&s, None, out); }
             let mut mm = opt_mismatch(s.as_ref(), o.is_some());
             if let (Some(view), Some(v)) = (s.as_ref(), o.as_ref()) {
                 if view.as_ref() != v.as_str() {
                     mm = Some("MappedOption<MappedStr> content differs".to_string());
                 }
             }
-            info(&s, mm)
+            info(&s, mm, None)
         }),
         Desc::Raw(b) => RawVectorMapper::new(map, offset).map(|s| {
+            let words: &MappedSlice<u64> = s.as_ref();
+            let out = outside(map, words.as_ref());
+            if out.is_some() { return info(&s, None, out); }
             let mm = raw_view_mismatch(&s, &b.model());
-            info(&s, mm)
+            info(&s, mm, None)
         }),
         Desc::Int { width, values } => IntVectorMapper::new(map, offset).map(|s| {
+            let raw: &RawVectorMapper = s.as_ref();
+            let words: &MappedSlice<u64> = raw.as_ref();
+            let out = outside(map, words.as_ref());
+            if out.is_some() { return info(&s, None, out); }
             let mm = int_view_mismatch(&s, *width, values);
-            info(&s, mm)
+            info(&s, mm, None)
         }),
         Desc::OptInt(o) => MappedOption::<IntVectorMapper>::new(map, offset).map(|s| {
+            let out = s.as_ref().and_then(|v| {
+                let raw: &RawVectorMapper = v.as_ref();
+                let words: &MappedSlice<u64> = raw.as_ref();
+                outside(map, words.as_ref())
+            });
+            if out.is_some() { return info(&s, None, out); }
             let mut mm = opt_mismatch(s.as_ref(), o.is_some());
             if let (Some(view), Some((w, v))) = (s.as_ref(), o.as_ref()) {
                 mm = int_view_mismatch(view, *w, v);
             }
-            info(&s, mm)
+            info(&s, mm, None)
         }),
         _ => return None,
     })
